@@ -57,6 +57,22 @@ class ProgGen:
         return self.r.random() < self.p_raw
 
     # ---- object creation
+    def endpoints(self):
+        """two sockets; now and then the same port on both sides, or the same host on both sides (never both): a flow is
+        told from its reverse by the pair, not by the port or the address alone"""
+        r = self.r
+        a, b, pa, pb = rand_ip(r), rand_ip(r), rand_port(r), rand_port(r)
+        k = r.random()
+        if k < 0.12:
+            pb = pa
+            if a == b:
+                b ^= 1
+        elif k < 0.17:
+            b = a
+            if pa == pb:
+                pb ^= 1
+        return SOCK(a, pa), SOCK(b, pb)
+
     def new_tcp(self):
         r = self.r
         name = self.fresh("t")
@@ -67,7 +83,7 @@ class ProgGen:
             kw["sv_seq"] = r.choice([0, 1, 5000, 2**31 - 1, 2**32 - 1, 2**32 - 2, r.getrandbits(32)])
         if self.rawflag():
             kw["raw"] = True
-        self.add(Let(name, Call("ipv4::tcp::flow", SOCK(rand_ip(r), rand_port(r)), SOCK(rand_ip(r), rand_port(r)), **kw)),
+        self.add(Let(name, Call("ipv4::tcp::flow", *self.endpoints(), **kw)),
                  what="tcpflow")
         self.tcp.append(name)
         return name
@@ -76,7 +92,7 @@ class ProgGen:
         r = self.r
         name = self.fresh("u")
         kw = {"raw": True} if self.rawflag() else {}
-        self.add(Let(name, Call("ipv4::udp::flow", SOCK(rand_ip(r), rand_port(r)), SOCK(rand_ip(r), rand_port(r)), **kw)),
+        self.add(Let(name, Call("ipv4::udp::flow", *self.endpoints(), **kw)),
                  what="udpflow")
         self.udp.append(name)
         return name
